@@ -96,6 +96,10 @@ func goMapDefineOwnProperty(obj *object, name string, descriptor property, throw
 	if !descriptor.isDataDescriptor() {
 		return obj.runtime.typeErrorResult(throw)
 	}
+	if goObj.value.IsNil() {
+		// Writing to a nil Go map is a Go runtime panic; report it to the script instead.
+		panic(obj.runtime.panicTypeError("cannot set property %q of a nil Go map", name))
+	}
 	goObj.value.SetMapIndex(goObj.toKey(obj.runtime, name), goObj.toValue(obj.runtime, descriptor.value.(Value)))
 	return true
 }
